@@ -51,6 +51,15 @@ func TestVerifC27_Registry(t *testing.T) {
 	if got, want := strings.Join(vc27Sorted(cases), " "), strings.Join(vc27Sorted(vc27ResultKinds), " "); got != want {
 		t.Fatalf("harness registry out of date: result kinds of encodeQueryResponse:\n  %s\nregistry:\n  %s", got, want)
 	}
+	// the value kinds of attributes: the cases of encodeAttr's type switch plus its default branch
+	attrCases, err := vc27SwitchCases("encoding/proto/proto.go", "encodeAttr")
+	if err != nil {
+		t.Fatalf("reading the value kinds of encodeAttr: %v", err)
+	}
+	attrCases = append(attrCases, "default")
+	if got, want := strings.Join(vc27Sorted(attrCases), " "), strings.Join(vc27AttrKindNames, " "); got != want {
+		t.Fatalf("harness registry out of date: value kinds of encodeAttr (+default):\n  %s\nattribute generators:\n  %s", got, want)
+	}
 	// every registry entry really is the type it names
 	for _, ty := range vc27Types {
 		if got := fmt.Sprintf("%T", ty.new()); got != "*pilosa."+ty.name {
@@ -128,6 +137,12 @@ func TestVerifC27_RoundTrip(t *testing.T) {
 				c.Class(fmt.Sprintf("result:%T", r))
 			}
 			c.ClassIf(qr.Err != nil, "result:err")
+		}
+		for kind, n := range vc27AttrKindSeen {
+			if n > 0 {
+				c.Class("attrvalue:" + kind)
+				vc27AttrKindSeen[kind] = 0
+			}
 		}
 		buf, err, pv := vc27Marshal(ser, v)
 		if pv != nil {
